@@ -320,6 +320,9 @@ func (p *Program) verifyFunc(t *target) (vc *VC, rep *FuncReport) {
 	var resVals []Val
 	emitPosts := func(final *State, suffix string) {
 	names = map[string]Val{}
+	for k, v := range x.rngFinal {
+		names[k] = v
+	}
 	for k, v := range x.entry {
 		names[k] = v
 	}
@@ -394,6 +397,16 @@ func (p *Program) verifyFunc(t *target) (vc *VC, rep *FuncReport) {
 				}
 				x.assertNamed(final, name, "post", ienv.boolean(cj), "implements "+ib.ic.Local+": "+exprText(cj), token.Position{Filename: en.File, Line: en.Line})
 			}
+		}
+	}
+	// an at_call clause that no call of this function is checked against says nothing: the contract is stale (or names
+	// the callee wrongly)
+	for key := range c.CallAsserts {
+		if strings.HasPrefix(key, "send:") {
+			continue
+		}
+		if x.counts["atcall:"+key] == 0 {
+			panic(unsupported("at_call " + key + ": the function makes no call of a function under that contract name (clause would be vacuous)"))
 		}
 	}
 	// frame: everything outside the modifies clause is unchanged (for objects that existed at entry)
